@@ -643,7 +643,83 @@ func c01Target(name string, aid, iid uint64, v bool) (path, ctype string, body [
 	return "/resource", refctl.CTJSON, []byte(`{"resource-type":"image","image-width":2,"image-height":2}`)
 }
 
+// c01LeftOver: what the accessory still owes a verified controller does not reach whoever connects next. L subscribes
+// to the bulb; the application lets the bulb follow the switch; L writes the switch with "Connection: close" — the
+// EVENT for the bulb becomes due while L's own request is being answered and the connection goes away right after
+// the response. Connections opened afterwards by somebody who has not verified get refusals and nothing else.
+func c01LeftOver(c *fw.Ctx) {
+	c.Eval(1)
+	cas := c01Case{Hist: []string{"left-over-notification"}}
+	b, err := newBed(c, bedOpt{Seed: []refctl.Identity{idL}, Snapshot: true})
+	if err != nil {
+		c.Infra("bed: " + err.Error())
+		return
+	}
+	defer b.Close()
+	b.Switch.Switch.On.OnValueRemoteUpdate(func(v bool) { b.Bulb.Lightbulb.On.SetValue(v) })
+	l, err := b.Dial()
+	if err != nil {
+		c.Infra(err.Error())
+		return
+	}
+	if _, ec, err := refctl.PairVerify(l, idL, refctl.Seed32("c01-leftover"), b.AccLTPK); err != nil || ec != 0 {
+		c.Infra(fmt.Sprintf("verify: %v %d", err, ec))
+		return
+	}
+	aid, iid := b.SwitchOn()
+	baid, biid := b.Bulb.Accessory.ID, b.Bulb.Lightbulb.On.ID
+	if m, _, err := l.Do("PUT", "/characteristics", refctl.CTJSON, []byte(fmt.Sprintf(`{"characteristics":[{"aid":%d,"iid":%d,"ev":true}]}`, baid, biid))); err != nil || m.Status/100 != 2 {
+		c.Infra(fmt.Sprintf("subscribe: %v %v", m, err))
+		return
+	}
+	body := fmt.Sprintf(`{"characteristics":[{"aid":%d,"iid":%d,"value":true}]}`, aid, iid)
+	req := fmt.Sprintf("PUT /characteristics HTTP/1.1\r\nHost: accessory.local\r\nConnection: close\r\nContent-Type: %s\r\nContent-Length: %d\r\n\r\n%s", refctl.CTJSON, len(body), body)
+	if err := l.Send([]byte(req)); err != nil {
+		c.Infra(err.Error())
+		return
+	}
+	l.Await()
+	time.Sleep(20 * time.Millisecond)
+	l.Close()
+	for i := 0; i < 4; i++ {
+		x, err := b.Dial()
+		if err != nil {
+			c.Infra(err.Error())
+			return
+		}
+		x.Timeout = 2 * time.Second
+		for j := 0; j < 2; j++ {
+			m, evs, err := x.Do("GET", "/accessories", "", nil)
+			if err != nil {
+				break
+			}
+			if len(evs) > 0 || m.Status/100 == 2 || hasCanary(m.Body) {
+				c.Report("left-over-reaches-next-connection", fmt.Sprintf("connection %d opened after a subscribed controller had gone received %d EVENT message(s) (status of its own request: %d): %q", i, len(evs), m.Status, trunc(append([]byte{}, firstBody(evs)...), 80)), cas)
+				return
+			}
+		}
+		// anything that arrives unasked within a moment
+		x.C.SetReadDeadline(time.Now().Add(60 * time.Millisecond))
+		if m, err := x.ReadMsg(); err == nil {
+			c.Report("left-over-reaches-next-connection", fmt.Sprintf("connection %d opened after a subscribed controller had gone received an unasked message: %q", i, trunc(m.Body, 80)), cas)
+			return
+		}
+		x.Close()
+	}
+	c.Class("left-over-notification")
+}
+
+func firstBody(evs []*refctl.Msg) []byte {
+	if len(evs) == 0 {
+		return nil
+	}
+	return evs[0].Body
+}
+
 func c01Run1(c *fw.Ctx) {
+	if c.Shard == 3%c.NShards {
+		c01LeftOver(c)
+	}
 	// every protected target × every HTTP method (9, including ones HAP does not use, a lower-case and an unknown
 	// one), from the initial state and after L has verified and subscribed, followed by a change made by the application
 	// fixed short histories around two more adversary operations
@@ -743,11 +819,15 @@ func init() {
 	fw.Register(&fw.Check{
 		ID:    "C01",
 		Level: "model_checking",
-		Rule:  "every history of length 3 (quick) / 4 (thorough) over 30 symbols, in thorough also every history of length 3 over 41 symbols (second adversary connection with every operation), and every history of length 2 / 3 from two non-initial states (L verified and subscribed; the same with adversary connections already open and a value changed): two adversary connections X1, X2 (plaintext GET /accessories, GET /characteristics, PUT value, PUT ev, POST /resource, POST /pairings add / remove, pair-verify start, forged and zero-key finish, pair-setup start, wrong-code verify and a key exchange under the all-zero key with the neutral group element as long-term key, a request sealed under keys derived from its own exchange, a fresh exchange finished with a correctly sealed message naming L or the accessory itself under the adversary's signature and at once followed by ciphertext under that exchange's keys, reopen, reconnect from exactly the source address and port the legitimate controller used; and every protected target — attribute database, characteristic read / write / subscribe, pairing add / remove, resource — with each of 9 HTTP methods including DELETE, PATCH, OPTIONS, TRACE, a lower-case and an unknown one; fixed histories in which the adversary resets a connection whose handler is still running and returns from the same source port, and in which it finishes pair-verify under the accessory's own name with the Ed25519 key of the all-zero seed, or under L's name with its own public key as an extra item of the signed payload), a legitimate controller L (verify, changing write, subscribe, close, and a pair-verify whose finish request is split with Expect: 100-continue so that its handler overlaps with the events that follow) and the application (set value), against the real transport (with /resource registered) over TCP, fresh system per history. After EVERY event: each protected operation on a connection the model holds as unverified is refused (status not 2xx, body discloses no attribute, value or canary — checked as plaintext and after decryption under every key the adversary holds), no EVENT precedes a barrier request on any adversary connection, characteristic values / every application callback counter / stored pairings are exactly what the model says; at the end of every history L (if verified) must still be served and every live adversary connection must still answer in plaintext, refuse, and not serve ciphertext under its own exchange keys. states = histories executed (each judges all its prefixes) Plus, in a subprocess built with a scheduling point before EVERY statement of hc's packages (textual insertion through go build -overlay): every interleaving with at most 1 (thorough 2) preemptions of pairs of handlers / users of connections on one accessory (a verified and a newly accepted unverified connection; two writers, a writer and the reader of one encrypted connection, writers on two connections) — each side must observe exactly what it observes when the two run one after the other.",
+		Rule:  "every history of length 3 (quick) / 4 (thorough) over 30 symbols, in thorough also every history of length 3 over 41 symbols (second adversary connection with every operation), and every history of length 2 / 3 from two non-initial states (L verified and subscribed; the same with adversary connections already open and a value changed): two adversary connections X1, X2 (plaintext GET /accessories, GET /characteristics, PUT value, PUT ev, POST /resource, POST /pairings add / remove, pair-verify start, forged and zero-key finish, pair-setup start, wrong-code verify and a key exchange under the all-zero key with the neutral group element as long-term key, a request sealed under keys derived from its own exchange, a fresh exchange finished with a correctly sealed message naming L or the accessory itself under the adversary's signature and at once followed by ciphertext under that exchange's keys, reopen, reconnect from exactly the source address and port the legitimate controller used; and every protected target — attribute database, characteristic read / write / subscribe, pairing add / remove, resource — with each of 9 HTTP methods including DELETE, PATCH, OPTIONS, TRACE, a lower-case and an unknown one; fixed histories in which the adversary resets a connection whose handler is still running and returns from the same source port, and in which it finishes pair-verify under the accessory's own name with the Ed25519 key of the all-zero seed, or under L's name with its own public key as an extra item of the signed payload; and one where an EVENT owed to a subscribed controller whose connection closes right after its response must not reach the connections opened next), a legitimate controller L (verify, changing write, subscribe, close, and a pair-verify whose finish request is split with Expect: 100-continue so that its handler overlaps with the events that follow) and the application (set value), against the real transport (with /resource registered) over TCP, fresh system per history. After EVERY event: each protected operation on a connection the model holds as unverified is refused (status not 2xx, body discloses no attribute, value or canary — checked as plaintext and after decryption under every key the adversary holds), no EVENT precedes a barrier request on any adversary connection, characteristic values / every application callback counter / stored pairings are exactly what the model says; at the end of every history L (if verified) must still be served and every live adversary connection must still answer in plaintext, refuse, and not serve ciphertext under its own exchange keys. states = histories executed (each judges all its prefixes) Plus, in a subprocess built with a scheduling point before EVERY statement of hc's packages (textual insertion through go build -overlay): every interleaving with at most 1 (thorough 2) preemptions of pairs of handlers / users of connections on one accessory (a verified and a newly accepted unverified connection; two writers, a writer and the reader of one encrypted connection, writers on two connections) — each side must observe exactly what it observes when the two run one after the other.",
 		Run:   c01Run1,
 		Replay: func(c *fw.Ctx, raw json.RawMessage) {
 			var cas c01Case
 			json.Unmarshal(raw, &cas)
+			if len(cas.Hist) == 1 && cas.Hist[0] == "left-over-notification" {
+				c01LeftOver(c)
+				return
+			}
 			c01Exec(c, cas.Hist)
 		},
 		Budget: func(t string) time.Duration {
